@@ -243,7 +243,7 @@ def shape_key(spec):
     return it(spec)
 
 
-def validate_native(E, paths, lv, conc, out, nmax=2):
+def validate_native(E, paths, lv, conc, out, nmax=2, big=False):
     """encoder validation (DESIGN 2.4): a model of up to nmax explored paths is instantiated to concrete literals and the
     *native* real code (no proxies) is compared with the concrete reference.  The symbolic run said 'holds' for all values,
     so a native mismatch means the proxies/stubs mis-model the real code on that path: it is reported (it is a real
@@ -276,6 +276,24 @@ def validate_native(E, paths, lv, conc, out, nmax=2):
                     keep.append(e_)
             if keep:
                 r2, mdl2 = E.query(pth, z3.BoolVal(True), extra=keep)
+                if r2 == "sat":
+                    res = conc(lv.model_values(mdl2))
+                    done += 1
+        if not isinstance(res, dict) and done <= 2 and big:
+            # a third valuation: as many integer leaves as the path allows are odd numbers beyond 2**53 (no double holds them;
+            # arithmetic is over the reals in the symbolic run, so a needless trip through a double is invisible there)
+            keep = []
+            for (_, k, v) in lv.vars:
+                if k != "int":
+                    continue
+                c_ = z3.And(v > 2 ** 53, v < 2 ** 53 + 1000, v % 2 == 1)
+                r2, _ = E.query(pth, z3.BoolVal(True), extra=keep + [c_])
+                if r2 == "sat":
+                    keep.append(c_)
+            if keep:
+                r2, mdl2 = E.query(pth, z3.BoolVal(True), extra=keep + [v <= 40 for (_, k, v) in lv.vars if k != "int"])
+                if r2 != "sat":
+                    r2, mdl2 = E.query(pth, z3.BoolVal(True), extra=keep)
                 if r2 == "sat":
                     res = conc(lv.model_values(mdl2))
                     done += 1
